@@ -89,7 +89,12 @@ func (e *c06Env) encode(tc *c06Case) (stream []byte, ends []int, msgs []proto.Me
 	for i, sz := range tc.In {
 		// single-field messages: protobuf-go marshals multi-field dynamic messages in unstable
 		// field order, which would make gzip sizes (and so stream lengths) vary between runs
-		m := e.t.newReq("", append([]byte(fmt.Sprintf("m%d:", i)), c06Payload(i, sz)...), 0)
+		m := e.t.newReq("", append([]byte(fmt.Sprintf("m%d:", i)), c06Payload(i, max(sz, 0))...), 0)
+		if sz < 0 {
+			// a string field whose JSON form is full of what a brace scanner must not trip over:
+			// it ends in an escaped backslash, and contains quotes, braces and an escaped quote
+			m = e.t.newReq(fmt.Sprintf(`m%d {"}\" \\" C:\dir\`, i), nil, 0)
+		}
 		msgs = append(msgs, m)
 		var enc []byte
 		switch tc.Transport {
@@ -110,6 +115,9 @@ func (e *c06Env) encode(tc *c06Case) (stream []byte, ends []int, msgs []proto.Me
 			enc = wire.GRPCFrame(1, rotBytes(pb))
 		case "http-json", "http-json-gzip":
 			enc, _ = protojson.Marshal(m)
+		case "http-json-nl": // newline-delimited: whitespace between the objects and after the last one
+			enc, _ = protojson.Marshal(m)
+			enc = append(append([]byte(" "), enc...), '\n')
 		case "http-proto-gzip":
 			pb, _ := proto.Marshal(m)
 			enc = append(refVarint(uint64(len(pb))), pb...)
@@ -250,7 +258,7 @@ func (e *c06Env) exec(tc *c06Case) c06Result {
 	case "webtext":
 		// doWeb base64-encodes Data itself; hand it the already encoded (and truncated) text
 		res = doWebRaw(m, full, "application/grpc-web-text", body)
-	case "http-json":
+	case "http-json", "http-json-nl":
 		codec = "json"
 		res = doHTTP(m, "POST", route, "", http.Header{"Content-Type": {"application/json"}}, body)
 	case "http-proto":
@@ -327,7 +335,7 @@ func (e *c06Env) exec(tc *c06Case) c06Result {
 	}
 	var payloads [][]byte
 	switch tc.Transport {
-	case "http-json", "http-json-gzip":
+	case "http-json", "http-json-gzip", "http-json-nl":
 		var err error
 		payloads, err = splitJSONStream(res.Body)
 		if tc.Shape == "cs" {
@@ -531,14 +539,18 @@ type c06Base struct {
 func c06Bases(thorough bool) []c06Base {
 	var out []c06Base
 	seqs := [][]int{{}, {0}, {1}, {5}, {0, 0}, {1, 5}, {5, 0, 1}}
+	seqs = append(seqs, []int{-1}, []int{-1, 5}, []int{0, -1}) // -1: the string message with backslashes, quotes and braces
 	if thorough {
 		seqs = append(seqs, []int{0, 1, 5}, []int{300}, []int{5, 300, 0}, []int{70, 70})
 	} else {
 		seqs = append(seqs, []int{300})
 	}
 	outs := [][]int{{}, {0}, {3}, {3, 0, 70}}
-	for _, tr := range []string{"grpc", "grpc-gzip", "grpc+json", "grpc+rev", "grpc-xrot", "web", "web-gzip", "webtext", "http-json", "http-proto", "http-json-gzip", "http-proto-gzip", "ws", "ws-frag"} {
+	for _, tr := range []string{"grpc", "grpc-gzip", "grpc+json", "grpc+rev", "grpc-xrot", "web", "web-gzip", "webtext", "http-json", "http-proto", "http-json-gzip", "http-proto-gzip", "http-json-nl", "ws", "ws-frag"} {
 		for _, sh := range []string{"cs", "bidi", "pingpong", "ss"} {
+			if tr == "http-json-nl" && sh == "ss" {
+				continue
+			}
 			if strings.HasSuffix(tr, "-gzip") && strings.HasPrefix(tr, "http-") && sh == "ss" {
 				continue // a unary gzip body is C03's subject
 			}
@@ -600,7 +612,7 @@ func isWS(transport string) bool { return transport == "ws" || transport == "ws-
 
 func runC06(c *Ctx) {
 	r := c.Run
-	r.Rule("transport{gRPC identity/gzip/+json/+a custom codec/a custom compressor, gRPC-web identity/gzip, gRPC-web-text, HTTP JSON stream, HTTP varint-delimited protobuf, both also inside a gzip Content-Encoding (complete streams only), HttpBody chunking (limits 4, 8, 64; uploads of every length 0..3·limit+1), AsHTTPBodyReader/Writer passthrough, WebSocket with whole and with fragmented (2-4 frames) messages} × shape{client-, server-, bidi batch, bidi ping-pong} × client sequence (0..3 messages, payloads 0/1/5/300) × handler sequence (0..3 replies) × read schedule (all 2^(n-1) partitions for streams <= 10 (thorough 13) bytes; uniform chunk sizes, every single cut and every pair of cuts (bounded) beyond) × EOF convention × truncation at every offset followed by EOF or a connection error; plus 3-message streams whose 1st/2nd/3rd message exceeds a receive limit of 40 with a field boundary exactly at the limit (9 transports); states = (transport, bytes consumed, messages delivered); distinct = (transport, shape, sequence) bases")
+	r.Rule("transport{gRPC identity/gzip/+json/+a custom codec/a custom compressor, gRPC-web identity/gzip, gRPC-web-text, HTTP JSON stream (also newline-delimited with whitespace after the last object), HTTP varint-delimited protobuf, both also inside a gzip Content-Encoding (complete streams only), HttpBody chunking (limits 4, 8, 64; uploads of every length 0..3·limit+1), AsHTTPBodyReader/Writer passthrough, WebSocket with whole and with fragmented (2-4 frames) messages} × shape{client-, server-, bidi batch, bidi ping-pong} × client sequence (0..3 messages, payloads 0/1/5/300, and a string message with backslashes, quotes and braces) × handler sequence (0..3 replies) × read schedule (all 2^(n-1) partitions for streams <= 10 (thorough 13) bytes; uniform chunk sizes, every single cut and every pair of cuts (bounded) beyond) × EOF convention × truncation at every offset followed by EOF or a connection error; plus 3-message streams whose 1st/2nd/3rd message exceeds a receive limit of 40 with a field boundary exactly at the limit (9 transports); states = (transport, bytes consumed, messages delivered); distinct = (transport, shape, sequence) bases")
 	r.Assume("an empty client stream is sent as an empty chunked body (Content-Length unknown)", "client-streaming with a unary reply over WebSocket is excluded: the only way for a WebSocket client to end its stream is to close, which also ends the reply channel", "HTTP/2 flow control and real half-close are seen only in the conformance runs")
 	fullMax := 10
 	if c.Thorough() {
@@ -678,6 +690,9 @@ func runC06(c *Ctx) {
 			for t := 0; t < n; t++ {
 				if strings.HasPrefix(b.Transport, "http-") && strings.HasSuffix(b.Transport, "-gzip") {
 					break // one gzip stream: message boundaries are not wire offsets
+				}
+				if b.Transport == "http-json-nl" {
+					break // a cut inside the whitespace between objects is a clean end, not a truncation: complete streams only
 				}
 				if b.Shape == "ss" && strings.HasPrefix(b.Transport, "http-") {
 					break // a unary request body has no framing: a truncated message is not detectable
